@@ -829,30 +829,7 @@ func (g *Generator) writeHeader(gf *protogen.GeneratedFile, file *protogen.File)
 
 // getMethodPath determines the HTTP path for a method.
 func (g *Generator) getMethodPath(method *protogen.Method, basePath string, packageName protogen.GoPackageName) string {
-	// Try to get custom path from options
-	customPath := g.getCustomPath(method)
-
-	// If we have both base path and custom path, combine them
-	if basePath != "" && customPath != "" {
-		// Ensure proper path joining
-		basePath = strings.TrimSuffix(basePath, "/")
-		if !strings.HasPrefix(customPath, "/") {
-			customPath = "/" + customPath
-		}
-		return basePath + customPath
-	}
-
-	// If only custom path, use it
-	if customPath != "" {
-		return customPath
-	}
-
-	// Generate default path
-	if basePath != "" {
-		return fmt.Sprintf("%s/%s", strings.TrimSuffix(basePath, "/"), camelToSnake(method.GoName))
-	}
-
-	return fmt.Sprintf("/%s/%s", packageName, camelToSnake(method.GoName))
+	return annotations.ResolveMethodPath(basePath, g.getCustomPath(method), string(packageName), method.GoName)
 }
 
 // getCustomPath extracts custom HTTP path from method options.
@@ -889,18 +866,7 @@ func (g *Generator) getPathParams(method *protogen.Method) []string {
 }
 
 func camelToSnake(s string) string {
-	var result []byte
-	for i, r := range s {
-		if r >= 'A' && r <= 'Z' {
-			if i > 0 {
-				result = append(result, '_')
-			}
-			result = append(result, byte(r+'a'-'A'))
-		} else {
-			result = append(result, byte(r))
-		}
-	}
-	return string(result)
+	return annotations.CamelToSnake(s)
 }
 
 // generateErrorResponseFunctions generates error response helper functions.
